@@ -266,6 +266,9 @@ func (r *Reporter) Violate(key string, what string, replay any) {
 	}
 	r.vioKeys[key] = true
 	dir := filepath.Join("/verif/replays", propID)
+	if o := os.Getenv("VERIF_OUT_DIR"); o != "" {
+		dir = filepath.Join(o, "replays", propID)
+	}
 	_ = os.MkdirAll(dir, 0o755)
 	path := filepath.Join(dir, key+".json")
 	b, _ := json.MarshalIndent(map[string]any{"property": propID, "what": what, "case": replay}, "", " ")
@@ -402,9 +405,13 @@ func (r *Reporter) writeEvidence() {
 	if ev["assumptions"] == nil {
 		ev["assumptions"] = []string{}
 	}
-	_ = os.MkdirAll("/verif/evidence", 0o755)
+	evDir := "/verif/evidence"
+	if o := os.Getenv("VERIF_OUT_DIR"); o != "" {
+		evDir = filepath.Join(o, "evidence") // triage runs against another checkout never touch the real evidence
+	}
+	_ = os.MkdirAll(evDir, 0o755)
 	b, _ := json.MarshalIndent(ev, "", " ")
-	_ = os.WriteFile(filepath.Join("/verif/evidence", propID+".json"), b, 0o644)
+	_ = os.WriteFile(filepath.Join(evDir, propID+".json"), b, 0o644)
 }
 
 // addTLC accumulates TLC statistics into the coverage record.
